@@ -67,9 +67,25 @@ for _n, _v in INVISIBLES.items():
     if _misparse(_v) != _v:
         INVISIBLE_KEYS["k" + _misparse(_v)] = "decoy-" + _n
 
+# Word-like keys with control / whitespace characters at their edges, next to the plain word.
+EDGE_WS: dict[str, str] = {"nl": "\n", "cr": "\r", "tab": "\t", "vt": "\x0b", "ff": "\x0c", "nel": "\x85",
+                           "ls": "\u2028", "nlnl": "\n\n", "crlf": "\r\n", "sp": " "}
+EDGE_KEYS: dict[str, Any] = {"name": "plain-name", "mid": {"x": "mid-plain", "name": "mid-plain-name"}}
+for _n, _w in EDGE_WS.items():
+    EDGE_KEYS["name" + _w] = "trail-" + _n
+    EDGE_KEYS[_w + "name"] = "lead-" + _n
+    EDGE_KEYS["mid" + _w] = {"x": "mid-trail-" + _n, "name" + _w: "mid-both-" + _n}
+# Values reserved words resolve to when they are used as variable names inside a nested path.
+RESERVED_VARS: dict[str, Any] = {
+    "for": "b", "true": "x", "false": "k", "nil": "first", "null": "x", "empty": "b", "blank": "x", "with": "k",
+    "as": "b", "if": "x", "else": "b", "or": "k", "not": "x", "in": "b", "contains": "first", "required": "x",
+}
+
 DATA_A: dict[str, Any] = {
     "a": {"b c": {"d": [{"e": 1}, {"e": 2}]}, "b": [1, 2, 3], "x": "xx", "k": "b", "first": "F",
-          **BACKSLASH_KEYS, **INVISIBLE_KEYS},
+          **BACKSLASH_KEYS, **INVISIBLE_KEYS, **EDGE_KEYS},
+    **RESERVED_VARS,
+    "name": "root-plain", "name\n": "root-nl", "name\r": "root-cr", "\nname": "root-lead-nl", "name\x85": "root-nel",
     **{"r" + v: "root-" + n for n, v in INVISIBLES.items() if n in ("lang-tag", "zero-width")},
     "C:\\temp\\new": "exact-root", "C:\temp\new": "decoy-root",
     "a b": "AB",
@@ -105,7 +121,7 @@ def random_data(rng: random.Random) -> dict[str, Any]:
             d[k] = rng.choice([True, False, None, 0, ""])
     d["n"] = rng.choice([0, 1, 2, 3, 4, None, "3"])
     d["a"] = rng.choice([DATA_A["a"], DATA_A["a"], DATA_B["a"],
-                         {"b": [3, 2, 1], "k": "b", "x": 1, **BACKSLASH_KEYS, **INVISIBLE_KEYS},
+                         {"b": [3, 2, 1], "k": "b", "x": 1, **BACKSLASH_KEYS, **INVISIBLE_KEYS, **EDGE_KEYS},
                          None, "str"])
     d["e"] = rng.choice([DATA_A["e"], DATA_B["e"], {"f": 1, "g": "k", **BACKSLASH_KEYS}, None])
     d["items"] = rng.choice([DATA_A["items"], [], [{"x": 2, "t": "b"}, {"x": 2, "t": "a", "f": 1}], None])
@@ -220,6 +236,35 @@ PRIMS.append(("'p${s}" + INVISIBLES["tag-flag"] + "q${n}" + INVISIBLES["zero-wid
 PRIMS.append(('"' + INVISIBLES["pua-16"] + "${s}'" + INVISIBLES["surrogate-hi"] + '"', "tstr-invisible", "any"))
 PRIMS.append(("['r" + INVISIBLES["lang-tag"] + "']", "path-invisible-root", "any"))
 PRIMS.append(('["r' + INVISIBLES["zero-width"] + '"].size', "path-invisible-root", "any num"))
+
+_ESC = {"\n": "\\n", "\r": "\\r", "\t": "\\t", "\x0c": "\\f"}
+for _n, _w in EDGE_WS.items():
+    _raw = _w
+    _esc = "".join(_ESC.get(c, c) for c in _w)
+    PRIMS.append((f"a['name{_esc}']", f"path-edge-ws-trailing-{_n}", "any"))
+    PRIMS.append((f'a["{_esc}name"]', f"path-edge-ws-leading-{_n}", "any"))
+    PRIMS.append((f"a['mid{_esc}'].x", f"path-edge-ws-middle-{_n}", "any"))
+    if _n in ("nl", "cr", "nel", "ls", "tab"):
+        PRIMS.append((f"a['mid{_esc}'][\"name{_esc}\"]", f"path-edge-ws-middle-and-last-{_n}", "any"))
+    if _raw != _esc and _n in ("nl", "tab", "crlf"):
+        PRIMS.append((f"a['name{_raw}']", f"path-edge-ws-trailing-raw-{_n}", "any"))
+for _n in ("nl", "cr", "nel"):
+    _esc = "".join(_ESC.get(c, c) for c in EDGE_WS[_n])
+    PRIMS.append((f"['name{_esc}']", f"path-edge-ws-root-{_n}", "any"))
+    PRIMS.append((f"'name{_esc}'", f"str-edge-ws-{_n}", "any"))
+PRIMS.append((r'["\nname"]', "path-edge-ws-root-leading", "any"))
+# nested (bracketed) paths whose root or later segments are reserved words
+for _w in RESERVED_VARS:
+    PRIMS.append((f"a[{_w}]", "path-nested-reserved-root", "any"))
+for _p, _f, _k in (
+    ("items[offset].t", "path-nested-loop-keyword", "any"), ("arr[continue]", "path-nested-loop-keyword", "any num rng"),
+    ("a.b[cols]", "path-nested-loop-keyword", "any num rng"), ("a[limit.z]", "path-nested-loop-keyword-dotted", "any"),
+    ("a[a[for]]", "path-nested-reserved-twice", "any"), ("a[e[with]]", "path-nested-reserved-twice", "any"),
+    ("arr[reversed[0]]", "path-nested-loop-keyword-index", "any"), ("a[a.k][offset]", "path-nested-loop-keyword-last", "any num"),
+    ("a[for].size", "path-nested-reserved-then-dot", "any num"), ("a[and]", "path-nested-reserved-root", "any"),
+    ("a[x.if]", "path-nested-reserved-later-segment", "any"), ("a[e['with']]", "path-nested-reserved-quoted", "any"),
+):
+    PRIMS.append((_p, _f, _k))
 
 _NOT_IN_LIQUID_LINE: set[str] = set()  # primitives containing a literal newline (none above)
 
